@@ -16,7 +16,8 @@ case = (backend, timed, parts, stages, draws, jobs)
           -- the Mersenne twister (and math.exp) are oracles for the model
   jobs    [(depth, action, arg, schedule)]: action on the dataset made of the first `depth` stages;
           0 runJob(unit_map) per-partition lists, 1 collect, 2 count, 3 sum, 4 coalesce(arg) partitions,
-          5 unpersist() of that dataset (no job; value None)
+          5 unpersist() of that dataset (no job; value None), 6 take(arg) (runs in the driver on every backend and
+          materialises only the leading partitions)
 result = ([(events, value) per job], cache_obj as [((stage position, partition), data)], stamped idents)
 """
 import atexit
@@ -102,7 +103,7 @@ FNS = {
 EXPANDING = (3, 6)
 BACKEND_NAMES = {0: 'sched', 1: 'sched+pickle', 2: 'dummy', 3: 'threadpool', 4: 'mp+cloudpickle', 5: 'mp+dill',
                  6: 'ppe+cloudpickle', 7: 'ppe+dill', 8: 'lazy-map'}
-ACTION_NAMES = {0: 'runJob', 1: 'collect', 2: 'count', 3: 'sum', 4: 'coalesce', 5: 'unpersist'}
+ACTION_NAMES = {0: 'runJob', 1: 'collect', 2: 'count', 3: 'sum', 4: 'coalesce', 5: 'unpersist', 6: 'take'}
 
 _POOLS = {}
 
@@ -206,17 +207,19 @@ def run_action(r, action, arg):
     if action == 5:
         r.unpersist()
         return None
+    if action == 6:
+        return list(r.take(arg))
     raise ValueError('action')
 
 
 def observe(backend, timed, parts, stages, jobs):
-    sc, pool = make_context(backend, timed, [j[3] for j in jobs if j[1] != 5])   # unpersist() runs no job
+    sc, pool = make_context(backend, timed, [j[3] for j in jobs if j[1] not in (5, 6)])   # unpersist() and take() run no pool job
     chain, ids = build_lineage(sc, parts, stages)
     outs, ran = [], 0
     for depth, action, arg, _ in jobs:
         value = run_action(chain[depth], action, arg)
         events = []
-        if pool is not None and action != 5:
+        if pool is not None and action not in (5, 6):
             ran += 1
             if len(pool.jobs) != ran:
                 return Err('UnexpectedNumberOfPoolJobs')
@@ -231,7 +234,7 @@ def observe(backend, timed, parts, stages, jobs):
 def _is_program_case(case):
     """('free' | 'history', backend, timed, spec, schedules): a replayable cross-backend program (judged by the oracle
     alone; the model does not decode it and answers BadCase, which is also what impl returns)."""
-    return isinstance(case, (tuple, list)) and len(case) == 5 and case[0] in ('free', 'history')
+    return isinstance(case, (tuple, list)) and len(case) == 5 and case[0] in ('free', 'history', 'partial')
 
 
 def impl(case):
@@ -450,7 +453,9 @@ def random_jobs(rng, nparts, nstages, sched_len, persist_depths=()):
         action = rng.choice([0, 0, 1, 1, 2, 3, 4])
         if persist_depths and rng.random() < 0.2:          # unpersist() of one of the persisted datasets
             depth, action = rng.choice(persist_depths), 5
-        arg = rng.randint(1, nparts + 1) if action == 4 else 0
+        elif persist_depths and rng.random() < 0.2:        # a partial action: only the leading partitions get cached
+            action = 6
+        arg = rng.randint(1, nparts + 1) if action == 4 else rng.randint(0, 3) if action == 6 else 0
         ids = list(range(nparts)) + ([nparts, -1] if rng.random() < 0.1 else [])
         style = rng.random()
         if style < 0.6:
@@ -512,6 +517,10 @@ def generate(rng, tier):
     # persist -> action -> unpersist() -> action again (and an unpersist of the inner dataset only)
     for s in all_schedules(2, 4 if quick else 7):
         cases.append(mk(0, 0, two, [(1,), (0, 0), (1,)], [(3, 1, 0, s), (3, 5, 0, []), (3, 1, 0, s[::-1]), (1, 5, 0, []), (3, 2, 0, s)]))
+    # a dataset that is only partly materialised (take) before the pool job, then the same action again
+    for s in all_schedules(3, 3 if quick else 6):
+        cases.append(mk(0, 0, three, [(1,), (0, 0), (1,)], [(3, 6, 1, []), (3, 1, 0, s), (3, 1, 0, s[::-1]), (2, 6, 3, []), (1, 0, 0, s)]))
+        cases.append(mk(0, 0, three, [(0, 0), (1,), (0, 1)], [(3, 6, 2, []), (3, 1, 0, s), (2, 0, 0, s)]))
     # pickled copies: the same canonical program, shorter bound
     if 1 in have:
         for s in all_schedules(2, 4 if quick else 8):
@@ -542,6 +551,12 @@ def generate(rng, tier):
 
 def shrink_candidates(case):
     if _is_program_case(case):
+        if case[0] == 'partial':
+            data, slices, steps = case[3]
+            for i in range(len(steps)):
+                yield (case[0], case[1], case[2], (data, slices, steps[:i] + steps[i + 1:]), case[4])
+            if len(data) > 1:
+                yield (case[0], case[1], case[2], (data[:-1], slices, steps), case[4])
         if case[0] == 'history':
             data, slices, steps = case[3]
             for i in range(len(steps)):
@@ -693,6 +708,7 @@ def extra_checks(rng, tier, workdir):  # pylint: disable=unused-argument
     have = [b for b in available_backends() if b != 2]
     yield from _free_checks(rng, n, have, None)
     yield from _history_checks(rng, n, have, None)
+    yield from _partial_checks(rng, 2 * n, have)
 
 
 FREE_NAMES = ['collect', 'count', 'second-collect', 'coalesce', 'sampleByKey', 'reduce', 'fold', 'aggregate', 'take',
@@ -714,6 +730,8 @@ def _judge_program(case):
     try:
         if which == 'free':
             return _judge_free(backend, timed, spec, sched, scratch)
+        if which == 'partial':
+            return _judge_partial(backend, spec, sched)
         return _judge_history(backend, timed, spec, sched, scratch)
     finally:
         shutil.rmtree(scratch, ignore_errors=True)
@@ -887,6 +905,155 @@ def _history_checks(rng, n, have, scratch):  # pylint: disable=unused-argument
             case = ('history', b, timed, spec, sched)
             o = _judge_program(case)
             _EXTRA['history_backend_runs'] = _EXTRA.get('history_backend_runs', 0) + 1
+            if o is not None:
+                yield (o[0], o[1], 'replayable: ./check C03 --replay <this file>', case)
+                if o[0].startswith('dummy:'):
+                    break
+
+
+# ---------------------------------------------------------------------------------------------------
+# histories on a persisted dataset that is only PARTLY materialised before a pool job:
+#   persist()/cache() on a dataset with several partitions (A: persisted map over the source, B: filter over the
+#   persisted A, C: persisted child of the persisted A, D: the persisted source itself)
+#   -> driver-side partial actions (first, take(n), isEmpty, top, takeOrdered, takeSample, toLocalIterator read partly)
+#   -> full actions on the pool (collect, count, sum, glom, a derived map + collect, a seeded sample + collect)
+#   -> the same full action again (a poisoned cache must show), optionally unpersist() in between.
+# Every value and the cache keys after every step are compared with the default executor, and the values of the
+# deterministic actions with their plain-list meaning.
+PARTIAL_OPS = ['first', 'take0', 'take1', 'take2', 'isEmpty', 'top', 'takeOrdered', 'takeSample', 'iterPartly']
+FULL_OPS = ['collect', 'count', 'sum', 'glom', 'mapCollect', 'sampleCollect']
+
+
+def _partial_spec(rng):
+    data = [rng.randint(0, 9) for _ in range(rng.choice([2, 3, 4, 6, 9]))]
+    slices = rng.randint(2, 4) if rng.random() < 0.75 else len(data) + 1
+    steps = []
+    target = rng.choice('ABCD')
+    for _ in range(rng.randint(1, 3)):
+        steps.append((rng.choice(PARTIAL_OPS), target if rng.random() < 0.7 else rng.choice('ABCD')))
+    if rng.random() < 0.15:
+        steps.append(('unpersist', rng.choice('ACD')))
+        steps.append((rng.choice(PARTIAL_OPS), target))
+    fulls = [(rng.choice(FULL_OPS), target if rng.random() < 0.7 else rng.choice('ABCD')) for _ in range(rng.randint(1, 3))]
+    steps += fulls
+    if rng.random() < 0.25:
+        steps.append(('unpersist', rng.choice('ACD')))
+    steps += fulls                      # the same full actions again
+    steps.append(('glom', target))       # and the per-partition content at the end
+    return (data, slices, steps)
+
+
+def _plain_meaning(data, op, ds):
+    """Plain-list meaning of the deterministic actions (None: judged against the default executor only)."""
+    a = [x + 1 for x in data]
+    lst = {'A': a, 'B': [x for x in a if x % 3 != 0], 'C': [2 * x for x in a], 'D': list(data)}[ds]
+    if op == 'first':
+        return lst[0] if lst else ('raised', None)
+    if op.startswith('take') and op[4:].isdigit():
+        return lst[:int(op[4:])]
+    if op == 'isEmpty':
+        return not lst
+    if op == 'top':
+        return sorted(lst, reverse=True)[:1]
+    if op == 'takeOrdered':
+        return sorted(lst)[:1]
+    if op == 'iterPartly':
+        return lst[:1]
+    if op == 'collect':
+        return lst
+    if op == 'count':
+        return len(lst)
+    if op == 'sum':
+        return sum(lst)
+    if op == 'mapCollect':
+        return [x + 100 for x in lst]
+    return None
+
+
+def _partial_program(spec):
+    data, slices, steps = spec
+
+    def program(sc):
+        a = sc.parallelize(list(data), slices).map(lambda x: x + 1).persist()
+        b = a.filter(lambda x: x % 3 != 0)
+        c = a.map(lambda x: 2 * x).cache()
+        d = sc.parallelize(list(data), slices).cache()
+        sets = {'A': a, 'B': b, 'C': c, 'D': d}
+        ids = {a.id(): 'A', c.id(): 'C', d.id(): 'D'}
+        out = []
+        for op, ds in steps:
+            r = sets[ds]
+            try:
+                if op == 'unpersist':
+                    r.unpersist()
+                    value = None
+                elif op.startswith('take') and op[4:].isdigit():
+                    value = r.take(int(op[4:]))
+                elif op == 'top':
+                    value = r.top(1)
+                elif op == 'takeOrdered':
+                    value = r.takeOrdered(1)
+                elif op == 'takeSample':
+                    value = r.takeSample(False, 2, seed=5)
+                elif op == 'iterPartly':
+                    value = list(itertools.islice(r.toLocalIterator(), 1))
+                elif op == 'glom':
+                    value = [list(p) for p in r.glom().collect()]
+                elif op == 'mapCollect':
+                    value = r.map(lambda x: x + 100).collect()
+                elif op == 'sampleCollect':
+                    value = r.sample(False, 0.6, seed=11).collect()
+                else:
+                    value = getattr(r, op)()
+            except Exception as e:  # pylint: disable=broad-except
+                value = ('raised', type(e).__name__)
+            cm = sc._cache_manager  # pylint: disable=protected-access
+            keys = sorted((ids.get(k[0], '?'), k[1]) for k in cm.cache_obj)
+            out.append(((op, ds), value, keys))
+        return out
+    return program
+
+
+def _judge_partial(backend, spec, sched):
+    program = _partial_program(spec)
+    want, err = _default_executor(('partial', spec), lambda: program(make_context(2, 0)[0]))
+    if err:
+        return ('dummy:partial-history-raised', err)
+    got = want
+    bname = BACKEND_NAMES[backend]
+    if backend != 2:
+        try:
+            got = program(make_context(backend, 0, sched)[0])
+        except Exception as e:  # pylint: disable=broad-except
+            return (f'{bname}:partial-history-raised:{type(e).__name__}', 'history raised on this backend only')
+    seen = set()
+    for n_step, (g, w) in enumerate(zip(got, want)):
+        (op, ds) = w[0]
+        again = 'repeated-' if (op, ds) in seen and op in FULL_OPS else ''
+        seen.add((op, ds))
+        plain = _plain_meaning(spec[0], op, ds)
+        if plain is not None:
+            ok = (isinstance(g[1], tuple) and g[1][:1] == ('raised',)) if plain == ('raised', None) else g[1] == plain
+            if not ok:
+                return (f'{bname}:partly-materialised:{again}{op}:differs-from-plain-list-meaning',
+                        f'step #{n_step} {op} on {ds}: {g[1]!r}; the plain-list meaning is {plain!r}')
+        if g != w:
+            what = 'value' if g[1] != w[1] else 'cache-keys'
+            return (f'{bname}:partly-materialised:{again}{op}:{what}-differs-from-default-executor',
+                    f'step #{n_step} {op} on {ds}: value, cache keys = {g[1:]!r}; the default executor gives {w[1:]!r}')
+    return None
+
+
+def _partial_checks(rng, n, have):
+    for _ in range(n):
+        spec = _partial_spec(rng)
+        _EXTRA['partial_histories'] = _EXTRA.get('partial_histories', 0) + 1
+        for b in [2] + have:
+            sched = ([[rng.randrange(spec[1]) for _ in range(rng.randint(0, 60))] for _ in range(3 * len(spec[2]) + 4)]
+                     if b in (0, 1) else [])
+            case = ('partial', b, 0, spec, sched)
+            o = _judge_program(case)
+            _EXTRA['partial_backend_runs'] = _EXTRA.get('partial_backend_runs', 0) + 1
             if o is not None:
                 yield (o[0], o[1], 'replayable: ./check C03 --replay <this file>', case)
                 if o[0].startswith('dummy:'):
